@@ -11,6 +11,11 @@
  *   S3: Machine{ PU0 +NUMA0 }
  *   S4: S1 loaded with INCLUDE_DISALLOWED where PU1 and NUMA1 are disallowed
  *   S5: S1 with a memory-side cache between each package and its NUMA node
+ *   S8: S1 with a second NUMA node (os_index 2) attached to Package0: heterogeneous memory, a node does not own its parent's nodeset
+ *   S6: asymmetric, L2 filtered KEEP_STRUCTURE: Package0{L2{PU0}} Package1{L2{Core{PU1}}} Package2{Core{PU2}} +NUMA0 on the machine:
+ *       the L2 and Core levels have the same width and only arity-1 parents but are NOT pairwise parent/child: nothing may be merged
+ *   S7: L2 filtered KEEP_STRUCTURE above a Core with the same cpuset, twice: L2{Core{PU0 PU1} +NUMA0} L2{Core{PU2 PU5} +NUMA1}:
+ *       the L2 level brings no structure and is merged away, its memory children move to the Cores
  */
 #ifndef VP_SEED_H
 #define VP_SEED_H
@@ -103,11 +108,32 @@ static int vp_seed_discover(struct hwloc_backend *b, struct hwloc_disc_status *d
     s->memcache[0] = vp_ins(t, HWLOC_OBJ_MEMCACHE, HWLOC_UNKNOWN_INDEX, 0x03, 0x1); s->memcache[1] = vp_ins(t, HWLOC_OBJ_MEMCACHE, HWLOC_UNKNOWN_INDEX, 0x24, 0x2);
     return 0;
   }
-  if (vp_seed_id == 1 || vp_seed_id == 4) {
+  if (vp_seed_id == 6) {
+    s->pu[0] = vp_ins(t, HWLOC_OBJ_PU, 0, 0x1, 0); s->pu[1] = vp_ins(t, HWLOC_OBJ_PU, 1, 0x2, 0); s->pu[2] = vp_ins(t, HWLOC_OBJ_PU, 2, 0x4, 0);
+    s->pkg[0] = vp_ins(t, HWLOC_OBJ_PACKAGE, 0, 0x1, 0); s->pkg[1] = vp_ins(t, HWLOC_OBJ_PACKAGE, 1, 0x2, 0); vp_ins(t, HWLOC_OBJ_PACKAGE, 2, 0x4, 0);
+    for (unsigned k = 0; k < 2; k++) { hwloc_obj_t c = hwloc_alloc_setup_object(t, HWLOC_OBJ_L2CACHE, HWLOC_UNKNOWN_INDEX); c->cpuset = vp_bm(1UL << k);
+      c->attr->cache.depth = 2; c->attr->cache.type = HWLOC_OBJ_CACHE_UNIFIED; c->attr->cache.size = 1024; c->attr->cache.linesize = 64;
+      hwloc_obj_t r = hwloc__insert_object_by_cpuset(t, NULL, c, NULL); VP_ASSUME(r == c); s->obj[s->nobj++] = c; }
+    s->core[0] = vp_ins(t, HWLOC_OBJ_CORE, 1, 0x2, 0); s->core[1] = vp_ins(t, HWLOC_OBJ_CORE, 2, 0x4, 0);
+    s->numa[0] = vp_ins(t, HWLOC_OBJ_NUMANODE, 0, 0x7, 0x1);
+    return 0;
+  }
+  if (vp_seed_id == 7) {
+    s->pu[0] = vp_ins(t, HWLOC_OBJ_PU, 0, 0x01, 0); s->pu[1] = vp_ins(t, HWLOC_OBJ_PU, 1, 0x02, 0);
+    s->pu[2] = vp_ins(t, HWLOC_OBJ_PU, 2, 0x04, 0); s->pu[3] = vp_ins(t, HWLOC_OBJ_PU, 5, 0x20, 0);
+    s->core[0] = vp_ins(t, HWLOC_OBJ_CORE, 0, 0x03, 0); s->core[1] = vp_ins(t, HWLOC_OBJ_CORE, 1, 0x24, 0);
+    for (unsigned k = 0; k < 2; k++) { hwloc_obj_t c = hwloc_alloc_setup_object(t, HWLOC_OBJ_L2CACHE, HWLOC_UNKNOWN_INDEX); c->cpuset = vp_bm(k ? 0x24 : 0x03);
+      c->attr->cache.depth = 2; c->attr->cache.type = HWLOC_OBJ_CACHE_UNIFIED; c->attr->cache.size = 1024; c->attr->cache.linesize = 64;
+      hwloc_obj_t r = hwloc__insert_object_by_cpuset(t, NULL, c, NULL); VP_ASSUME(r == c); s->obj[s->nobj++] = c; }
+    s->numa[0] = vp_ins(t, HWLOC_OBJ_NUMANODE, 0, 0x03, 0x1); s->numa[1] = vp_ins(t, HWLOC_OBJ_NUMANODE, 1, 0x24, 0x2);
+    return 0;
+  }
+  if (vp_seed_id == 1 || vp_seed_id == 4 || vp_seed_id == 8) {
     s->pu[0] = vp_ins(t, HWLOC_OBJ_PU, 0, 0x01, 0); s->pu[1] = vp_ins(t, HWLOC_OBJ_PU, 1, 0x02, 0);
     s->pu[2] = vp_ins(t, HWLOC_OBJ_PU, 2, 0x04, 0); s->pu[3] = vp_ins(t, HWLOC_OBJ_PU, 5, 0x20, 0);
     s->pkg[0] = vp_ins(t, HWLOC_OBJ_PACKAGE, 0, 0x03, 0); s->pkg[1] = vp_ins(t, HWLOC_OBJ_PACKAGE, 1, 0x24, 0);
     s->numa[0] = vp_ins(t, HWLOC_OBJ_NUMANODE, 0, 0x03, 0x1); s->numa[1] = vp_ins(t, HWLOC_OBJ_NUMANODE, 1, 0x24, 0x2);
+    if (vp_seed_id == 8) s->numa[2] = vp_ins(t, HWLOC_OBJ_NUMANODE, 2, 0x03, 0x4);
     if (vp_seed_id == 4) { hwloc_bitmap_clr(t->allowed_cpuset, 1); hwloc_bitmap_clr(t->allowed_nodeset, 1); }
     return 0;
   }
@@ -171,6 +197,7 @@ static struct hwloc_topology *vp_seed_build(int id, unsigned long flags)
   /* default filters, plus I/O and Misc kept so that S2 can carry them */
   t->type_filter[HWLOC_OBJ_BRIDGE] = t->type_filter[HWLOC_OBJ_PCI_DEVICE] = t->type_filter[HWLOC_OBJ_OS_DEVICE] = t->type_filter[HWLOC_OBJ_MISC] = HWLOC_TYPE_FILTER_KEEP_ALL;
   if (id == 5) t->type_filter[HWLOC_OBJ_MEMCACHE] = HWLOC_TYPE_FILTER_KEEP_ALL;
+  if (id == 6 || id == 7) t->type_filter[HWLOC_OBJ_L2CACHE] = HWLOC_TYPE_FILTER_KEEP_STRUCTURE;
 #ifdef VP_SEED_FILTER_HOOK
   VP_SEED_FILTER_HOOK(t);
 #endif
